@@ -163,8 +163,11 @@ def theorems(ctx):
     ctx.theorems("props/C14_speckey.vo", ["C14_spec_key_inj", "C14_join_inj"], kernels=["K11"])
     spec_key_tie(ctx)
     # the stub / compile / raise decision and the stub's re-build arguments, over kernel K114a (builder.py, this run)
+    # and the on-demand compilation of nested dataclasses, over kernel K114b (pack.py / unpack.py, this run)
     ctx.theorems("props/C14_decision.vo", ["C14_source_lazy_test", "C14_source_unresolved_test", "C14_build_follows_source",
-                                           "C14_stub_step_follows_source"], kernels=["K114a"])
+                                           "C14_stub_step_follows_source", "C14_source_ondemand_test",
+                                           "C14_deps_step_follows_source", "C14_build_ondemand_follows_source"],
+                 kernels=["K114a", "K114b"])
     ctx.coqchk(["VerifProps.C14_lazy", "VerifProps.C14_speckey", "VerifProps.C14_decision"])      # thorough tier only
 
 
